@@ -14,6 +14,9 @@ PID = "C08"
 
 # (source, {parameter: list of values to sweep})
 PROGRAMS = [
+    # parameters that have a default in the signature, bound explicitly (also to the falsy value of their domain)
+    ("def test(a: Qint[2], c: Parameter[Qint[2]] = 1) -> Qint[2]:\n    return c + a", dict(c=[0, 1, 2])),
+    ("def test(a: bool, en: Parameter[bool] = True) -> bool:\n    return a and en", dict(en=[False, True])),
     ("def test(c: Parameter[bool], a: bool) -> bool:\n    return a and c", dict(c=[True, False])),
     ("def test(a: bool, c: Parameter[bool], b: bool) -> bool:\n    return (a and c) or (b and not c)", dict(c=[True, False])),
     ("def test(c: Parameter[Qint[2]], a: bool) -> Qint[2]:\n    return c + 1 if a else c", dict(c=[0, 1, 2, 3])),
